@@ -207,6 +207,8 @@ def norm_check(src, ref, out):
     vx, vy = sum((x - mx) ** 2 for x in xs), sum((y - my) ** 2 for y in ys)
     if vx == 0:
         return True
+    if not (math.isfinite(a) and math.isfinite(b)):
+        return False
 
     def pct1(v):
         v = sorted(v)
@@ -216,3 +218,20 @@ def norm_check(src, ref, out):
     ea = math.sqrt(vy / vx)
     eb = pct1(ys) - pct1(xs) * ea
     return abs(a - ea) <= 1e-4 * (1 + ea) and abs(b - eb) <= 1e-3 * (1 + abs(eb) + abs(pct1(xs) * ea))
+
+
+def corr_cases(run, todo, name='fit', shard=40):
+    """Run the real fit on every case dict of ``todo`` and the Gallina model inside Coq; returns (failing metas, nontrivial)."""
+    cases, metas = [], []
+    for c in todo:
+        out = run_fit(c['model'], c['kshape'], c['find_r2'], c['thresh'], c['src'], c['ref'])
+        a, b = out['norm']
+        if c['model'] == 'gain-blk-offset' and not (np.isfinite(a) and np.isfinite(b)):
+            continue
+        cases.append(encode(c['model'], c['kshape'], c['thresh'], c['src'], c['ref'], out))
+        metas.append(dict(model=c['model'], kernel_shape=list(c['kshape']), find_r2=c['find_r2'], r2_inpaint_thresh=c['thresh'],
+                          shape=list(c['src'].shape), note=c.get('note', ''),
+                          src=np.where(np.isnan(c['src']), -9999, c['src']).tolist(),
+                          ref=np.where(np.isnan(c['ref']), -9999, c['ref']).tolist()))
+    failing, nt = run.corr(name, 'Corr.CheckC01', cases, shard=shard)
+    return [metas[k] for k in failing], nt, len(cases)
